@@ -439,6 +439,8 @@ class SR:
         a, b = self, o
         if not a.n or not b.n:
             return SR({}, {})
+        if a is b and a.root is not None:
+            return a.root
         if not b.d and P.p_is_const(b.n):
             c = P.p_const_value(b.n)
             r = SR(P.p_scale(a.n, c), a.d)
@@ -512,6 +514,8 @@ class SR:
             k = int(e)
             if k == 0:
                 return SR.const(1)
+            if k == 2 and self.root is not None:
+                return self.root
             if k < 0:
                 return (self ** (-k)).inv() if not self.is_const() else SR.const(Fraction(1) / self.cval() ** (-k))
             return SR.mk(P.p_pow(self.n, k), {kk: ee * k for kk, ee in self.d.items()})
@@ -731,6 +735,8 @@ class SR:
         return sqrt(self)
 
     def square(self):
+        if self.root is not None:
+            return self.root        # (sqrt X)^2 = X wherever the root is defined (also for rational radicands)
         return self * self
 
     def exp(self):
@@ -1011,6 +1017,8 @@ def lift(x):
         v = ENGINE.parse_token(x)
         if v is not None:
             return v
+    if type(x).__module__.startswith("sympy.") and getattr(x, "is_number", False) and getattr(x, "is_real", False):
+        return SR.const(snap_float(float(x)))      # e.g. wigner_3j(...).evalf(): the double it denotes
     return NotImplemented
 
 
